@@ -34,13 +34,19 @@ def expected : List Nat :=
      13010866702533733856   /- sendSharedMsg -/,
      4166329027662608509   /- Federation.sendMessage -/,
      8933671266491609767   /- Federation.OnMsgArrivedWrapper -/,
-     2067191168662279666   /- Federation.OnWillPublishWrapper -/]
+     2067191168662279666   /- Federation.OnWillPublishWrapper -/,
+     14018921388777623122   /- peer.initStream -/]
 
 /-- event queue, peer session, duplicate filter, resume decision, event application, local reference counts and the hooks
     that emit Subscribe / Unsubscribe events (C16) -/
 theorem event_protocol_functions_as_transcribed : fedFuncsH.take 16 = expected.take 16 := by decide
 
 /-- routing: `sendSharedMsg`, `sendMessage` and the two hooks that call it (C17) -/
-theorem routing_functions_as_transcribed : fedFuncsH.drop 16 = expected.drop 16 ∧ fedFuncsH.length = 20 := by decide
+theorem routing_functions_as_transcribed :
+    (fedFuncsH.drop 16).take 4 = (expected.drop 16).take 4 ∧ fedFuncsH.length = 21 := by decide
+
+/-- the handshake and the clean-start resynchronisation (`initStream`): the order of its statements is also read as facts
+    (`Generated/FedResync.lean`, `Properties/FedResync.lean`) -/
+theorem init_stream_as_transcribed : fedFuncsH.drop 20 = expected.drop 20 := by decide
 
 end GmqttVerif.FedSource
